@@ -26,7 +26,7 @@ Local Open Scope Z_scope.
 Fixpoint bytes_eqb (a b : bytes) : bool :=
   match a, b with
   | [], [] => true
-  | x :: a', y :: b' => Byte.eqb x y && bytes_eqb a' b'
+  | x :: a', y :: b' => if Byte.eqb x y then bytes_eqb a' b' else false
   | _, _ => false
   end.
 
